@@ -42,7 +42,8 @@ ASSUMPTIONS = [
     "sibling order / node order of the result is free (tags decide)",
 ]
 REQUIRED = ["redirect_checked", "redirect_chained_checked", "cat_checked", "cat_merged",
-            "cat_linked", "cat_translate", "cat_no_translate", "cat_flag_as_numpy_bool_or_int", "tap_redirect_tree", "tap_cat_tree"]
+            "cat_linked", "cat_translate", "cat_no_translate", "cat_flag_as_numpy_bool_or_int",
+            "size_sweep_cases", "tap_redirect_tree", "tap_cat_tree"]
 FLOOR = {"quick": 2500, "thorough": 300000}
 SHARDS = {"quick": 8, "thorough": 16}
 
@@ -391,6 +392,20 @@ def _workload(ctx):
             if jn == "asis" and rng.random() < 0.3:
                 case["derived"] = int(rng.integers(1, 2**31 - 1))
             ctx.case(case, nontrivial=nb >= 2, klass=f"cat/{jn}/{'tr' if tr else 'notr'}")
+            execute(ctx, case)
+    for j, rc in enumerate(G.sweep_recipes(ctx, large=2, extras=1)):
+        # sizes on / next to powers of two, and big branched trees (re-rooted and concatenated)
+        n = rc["n"]
+        case = {"op": "redirect", "tree": rc, "node": int(rng.integers(1, n)), "sort": bool(j % 2 == 0)}
+        ctx.case(case, klass="redirect/size-sweep")
+        ctx.count("size_sweep_cases")
+        execute(ctx, case)
+        if n >= 30000:
+            rb = dict(rc, n=24000, seed=rc["seed"] + 1)
+            case = {"op": "cat", "A": rc, "B": rb, "a": int(rng.integers(0, n)),
+                    "b": int(rng.integers(1, 24000)), "translate": True, "junction": "asis",
+                    "jseed": 1}
+            ctx.case(case, klass="cat/size-sweep")
             execute(ctx, case)
     if ctx.shard == 0:  # deep chain: re-root at the far end
         n_deep = 5000 if ctx.quick else 30000
